@@ -40,6 +40,7 @@ registry! {
     "C28" => c28,
     "C32" => c32,
     "C34" => c34,
+    "C35" => c35,
     "C36" => c36,
     "C37" => c37,
     "C38" => c38,
